@@ -248,10 +248,13 @@ class Grid(col.MutableSequence):
         '''
         Reindex the grid if a user, update directly an id of a row
         '''
-        self._index = {}
+        # Built aside and published in one step: another thread never sees
+        # an index that is only partly filled.
+        index = {}
         for item in self._row:
             if "id" in item:
-                self._index[str(item["id"])] = item
+                index[str(item["id"])] = item
+        self._index = index
 
     # FIXME
     def extend(self, values):
